@@ -313,13 +313,16 @@ inductive SeedAct where
   | seedWith (n : Nat)      -- `random.seed(n); np.random.seed(n); th.manual_seed(n)`
   | fromEntropy             -- seeded from a value nobody controls
   | raise                   -- ValueError before anything was touched
+  /-- a seed above 2³²−1: `random.seed(n)` succeeds, then `np.random.seed(n)` raises ValueError - the call ends by exception with
+  python's generator re-seeded and numpy's (and torch's) left where they were -/
+  | raiseHalfSeeded
   deriving DecidableEq, Repr
 
 def SeedShape.setRandomSeed (sh : SeedShape) (seed : Option Int) (generate : Bool) : SeedAct :=
   if sh.absent.any (·.eval seed) then (if generate && sh.absentGenerates then .fromEntropy else .keep)
   else if sh.invalid.any (·.eval seed) then .raise
   else match seed with
-    | some n => .seedWith n.toNat
+    | some n => if n.toNat < 4294967296 then .seedWith n.toNat else .raiseHalfSeeded   -- numpy accepts 0 … 2³²−1 only
     | none => .fromEntropy      -- `random.seed(None)` seeds from the OS
 
 def SeedShape.resetAct (sh : SeedShape) (seed : Option Int) (generate : Bool) : SeedAct :=
@@ -347,6 +350,7 @@ def SeedShape.toOp {Act : Type} (sh : SeedShape) (generate : Bool) : COp Act →
     | .seedWith n => some (.reset (some n))
     | .fromEntropy => none
     | .raise => none
+    | .raiseHalfSeeded => none
 
 /-- the operation list up to the first call outside the modelled fragment -/
 def SeedShape.toOps {Act : Type} (sh : SeedShape) (generate : Bool) : List (COp Act) → List (Op Act)
